@@ -42,25 +42,73 @@ def no_par(sizes):
     return [[]]
 
 
-# name, [(cats, sizes | None = 0..max)], parameter lists for given sizes, move-only instantiation exists for these cats
+# A row: name, value categories allowed per argument, shapes(maxn) -> iterable of (sizes, par), and for which category
+# tuples the instantiation with the move-only element type exists (= the model's program contains no copy).
+rv_only = lambda cats: all(c in "ri" for c in cats)
+always = lambda cats: True
+
+
+def sized(nargs, fixed=None, par=None, cap=None):
+    """all size tuples 0..maxn (fixed: {arg index: [sizes]}), each with every parameter list par(sizes)"""
+    fixed = fixed or {}
+
+    def shapes(maxn):
+        m = maxn if cap is None else min(maxn, cap)
+        sets = [fixed.get(k, list(range(m + 1))) for k in range(nargs)]
+        for sizes in itertools.product(*sets):
+            for p in (par(sizes) if par else [[]]):
+                yield sizes, p
+    return shapes
+
+
+def opt_sized(nargs, par=None):
+    return sized(nargs, {k: [0, 1] for k in range(nargs)}, par)
+
+
+def mask_shapes(maxn):
+    """presence masks of length 0..maxn; the argument holds the elements of the present entries"""
+    for ln in range(maxn + 1):
+        for m in itertools.product([0, 1], repeat=ln):
+            yield (sum(m),), list(m)
+
+
+BIT = lambda s: [[0], [1]]
+
+
 def table():
-    rv_only = lambda cats: all(c in "ri" for c in cats)
-    always = lambda cats: True
     return [
-        ("algmap", [(ANY, None)], no_par, always),
-        ("fold", [(ANY, None), ("r", [1])], no_par, always),
-        ("foldbrk", [(ANY, None), ("r", [1])], lambda s: [[k] for k in range(s[0] + 1)], always),
-        ("mapcat", [(ANY, None)], lambda s: masks(s[0], 2), always),
-        ("mapopt", [(ANY, None)], lambda s: masks(s[0], 1), always),
-        ("reverse", [(ANY, None)], no_par, rv_only),
-        ("join2", [(ANY, None), (ANY, None)], no_par, rv_only),
-        ("join3", [(ANY, None), (ANY, None), (ANY, None)], no_par, rv_only),
-        ("popback", [("i", None)], no_par, always),
-        ("popfront", [("i", None)], no_par, always),
-        ("mrmap", [("r", None)], no_par, always),
-        ("moveclear", [("i", None)], no_par, always),
-        ("goi", [("i", None)], lambda s: [[k] for k in range(s[0] + 1)], always),
-        ("goiwr", [("i", None)], lambda s: [[k] for k in range(s[0] + 1)], always),
+        ("algmap", [ANY], sized(1), always),
+        ("fold", [ANY, "r"], sized(2, {1: [1]}), always),
+        ("foldbrk", [ANY, "r"], sized(2, {1: [1]}, lambda s: [[k] for k in range(s[0] + 1)]), always),
+        ("mapcat", [ANY], sized(1, par=lambda s: masks(s[0], 2), cap=4), always),
+        ("mapopt", [ANY], sized(1, par=lambda s: masks(s[0], 1)), always),
+        ("reverse", [ANY], sized(1), rv_only),
+        ("join2", [ANY, ANY], sized(2), rv_only),
+        ("join3", [ANY, ANY, ANY], sized(3, cap=3), rv_only),
+        ("popback", ["i"], sized(1), always),
+        ("popfront", ["i"], sized(1), always),
+        ("mrmap", ["r"], sized(1), always),
+        ("moveclear", ["i"], sized(1), always),
+        ("goi", ["i"], sized(1, par=lambda s: [[k] for k in range(s[0] + 1)]), always),
+        ("goiwr", ["i"], sized(1, par=lambda s: [[k] for k in range(s[0] + 1)]), always),
+        # optional
+        ("optmap", [ANY], opt_sized(1), always),
+        ("optbind", [ANY], opt_sized(1, BIT), always),
+        ("optfrom", [ANY], opt_sized(1), rv_only),
+        ("optalt", [ANY], opt_sized(1, BIT), rv_only),
+        ("optfilter", [ANY], opt_sized(1, BIT), rv_only),
+        ("optjoin", [ANY], opt_sized(1, lambda s: [[1]] if s[0] else [[0], [1]]), rv_only),
+        ("optcombine", [ANY, ANY], opt_sized(2), rv_only),
+        ("optapply2", [ANY, ANY], opt_sized(2), rv_only),
+        ("optseq", [ANY], mask_shapes, rv_only),
+        ("optcat", [ANY], mask_shapes, rv_only),
+    ]
+
+
+# operations on which the unchanged tree disagrees with the property (notes/C05.md, DEFECT CANDIDATE); run last
+def candidates():
+    return [
+        ("opttocont", ["lr"], opt_sized(1), rv_only),
     ]
 
 
@@ -70,17 +118,14 @@ def arg_tok(k, cat, size):
 
 
 def lines_for(row, maxn):
-    name, args, pars, mo = row
+    name, cat_sets, shapes, mo = row
     out = []
-    cat_sets = [a[0] for a in args]
-    size_sets = [a[1] if a[1] is not None else list(range(maxn + 1)) for a in args]
     for cats in itertools.product(*cat_sets):
-        for sizes in itertools.product(*size_sets):
-            for par in pars(sizes):
-                body = " ".join([str(len(args))] + [arg_tok(k, c, n) for k, (c, n) in enumerate(zip(cats, sizes))] + [str(p) for p in par])
-                out.append(f"{name} T {body}")
-                if mo(cats):
-                    out.append(f"{name} M {body}")
+        for sizes, par in shapes(maxn):
+            body = " ".join([str(len(cats))] + [arg_tok(k, c, n) for k, (c, n) in enumerate(zip(cats, sizes))] + [str(p) for p in par])
+            out.append(f"{name} T {body}")
+            if mo(cats):
+                out.append(f"{name} M {body}")
     return out
 
 
@@ -90,14 +135,10 @@ def nontrivial(op, result):
 
 def batches(rng, tier):
     maxn = 5 if tier == "thorough" else 3
-    for row in table():
-        nargs = len(row[1])
-        mx = maxn if nargs < 3 else min(maxn, 3 if tier == "thorough" else 2)
-        if row[0] in ("mapcat",) and tier == "thorough":
-            mx = 4
-        ops = lines_for(row, mx)
+    for row in table() + candidates():
+        ops = lines_for(row, maxn)
         yield Batch(row[0], ops, exhaustive=True,
-                    note=f"every value category x sizes 0..{mx} x every answer table of the user's function, copyable and move-only element type")
+                    note=f"every value category x every shape up to size {maxn} x every answer table of the user's function, copyable and move-only element type")
 
 
 MANIFEST = {
